@@ -5,7 +5,7 @@ the implementation - every bit of the binary body, every truncation length, exte
 header rewrites, credentials minted under a second key - on the toy build (byte-exact vs the model) and the real build (oracle)."""
 import json
 from ..vlib import leanlib, cbuild, judge
-from ..gen import g_dec
+from ..gen import g_dec, g_unpack
 from . import _cred_common as cc
 from . import _cred_checks as K
 
@@ -183,6 +183,9 @@ def run(ctx):
         drv = leanlib.driver(ctx); h = cc.build_toy(ctx)
         judge.run_and_judge(ctx, "replay", rep.get("ops") or [], [h], [drv], what="altered credential (replay)")
         return
+    # the model's parsers are proved to be the parsers of dec.c (translated by the K+cursor translator)
+    if g_unpack.generate(ctx):
+        leanlib.check_props(ctx, "UnpackRef")
     leanlib.check_props(ctx, "C02")
     drv = leanlib.driver(ctx)
     htoy = cc.build_toy(ctx)
